@@ -8,6 +8,7 @@
   `Execute`/`ExecuteBytes` are `ExecuteWriter` into an empty buffer.
 -/
 import Pongo.Model.Exec
+import Pongo.Lemmas.GrowsAll
 
 namespace Pongo.C14
 
@@ -73,5 +74,34 @@ theorem variants_fail_alike (fuel ti : Nat) (ctx : Env) (σ : ES) :
       obtain ⟨s'', hs, _⟩ := variants_agree T cfg g fuel ti ctx σ s' hu
       rw [hs] at h
       cases h
+
+/-! ### the unbuffered variant: whatever it wrote before failing is a leading part
+
+From the interpreter-wide induction of `Lemmas/GrowsAll.lean`: every function of the interpreter
+only ever appends to the output, and expressions (macro calls, `block.Super` included) do not touch
+it at all — for every fuel, template, context and state, on success and on failure. -/
+
+/-- **ExecuteWriterUnbuffered only appends**: after the execution — finished or failed at any point —
+    the writer holds what it held before followed by what was written; nothing already written is
+    taken back or altered. -/
+theorem unbuffered_only_appends (fuel ti : Nat) (ctx : Env) (σ : ES) :
+    ∃ written, (endState ((executeTplUnbuffered T cfg g fuel ti ctx).run σ)).out = σ.out ++ written := by
+  have := (allGrows T cfg g fuel).executeTplUnbuffered ti ctx
+  unfold Grows at this
+  exact this σ
+
+/-- the same for every single node: a construct only appends, also when it fails half-way -/
+theorem every_node_only_appends (fuel : Nat) (n : Node) (σ : ES) :
+    ∃ written, (endState ((execNode T cfg g fuel n).run σ)).out = σ.out ++ written := by
+  have := (allGrows T cfg g fuel).execNode n
+  unfold Grows at this
+  exact this σ
+
+/-- evaluating an expression writes nothing (a macro's output is the macro call's *value*) -/
+theorem expressions_write_nothing (fuel : Nat) (e : Expr) (σ : ES) :
+    (endState ((eval T cfg g fuel e).run σ)).out = σ.out := by
+  have := (allGrows T cfg g fuel).eval e
+  unfold Quiet at this
+  exact this σ
 
 end Pongo.C14
